@@ -370,7 +370,7 @@ def parse_sim_file(path: str) -> list[tuple[str, dict]]:
 # --- state-graph dumps (-dump dot,actionlabels) -------------------------------------------
 
 _RE_DOTNODE = re.compile(r'^(-?\d+) \[label="((?:[^"\\]|\\.)*)"(,style = filled)?', re.M)
-_RE_DOTEDGE = re.compile(r'^(-?\d+) -> (-?\d+) \[label="(\w*)"', re.M)
+_RE_DOTEDGE = re.compile(r'^(-?\d+) -> (-?\d+) \[label="((?:[^"\\]|\\.)*)"', re.M)
 
 
 def parse_dot(path: str):
@@ -383,5 +383,5 @@ def parse_dot(path: str):
         nodes[nid] = tlaval.parse_state(lab)
         if m.group(3):
             init.append(nid)
-    edges = [(m.group(1), m.group(2), m.group(3)) for m in _RE_DOTEDGE.finditer(txt)]
+    edges = [(m.group(1), m.group(2), m.group(3).replace('\\"', '"')) for m in _RE_DOTEDGE.finditer(txt)]
     return nodes, edges, init
